@@ -1,6 +1,7 @@
 package main
 
 import (
+	"strings"
 	"go/ast"
 	"go/token"
 	"go/types"
@@ -191,4 +192,112 @@ func OriginOnPath(info *types.Info, p *Path, idx int, e ast.Expr) ast.Expr {
 		}
 	}
 	return e
+}
+
+// Literal is one atomic fact a branch establishes: X == Val (Eq) or X != Val (!Eq).
+// Val is a ValueKey ("workflow.Completed", "nil", "true"), or "int:N" for an integer constant.
+type Literal struct {
+	X   ast.Expr
+	Val string
+	Eq  bool
+}
+
+func valOf(info *types.Info, e ast.Expr) string {
+	if v := ValueKey(info, e); v != "" && !strings.HasPrefix(v, "method:") && !strings.HasPrefix(v, "func:") {
+		if tv, ok := info.Types[e]; ok && tv.Value == nil && v != "nil" {
+			return "" // a package-level variable, not a constant
+		}
+		return v
+	}
+	if n, ok := ConstInt(info, e); ok {
+		return "int:" + itoa(int(n))
+	}
+	return ""
+}
+
+// condLiterals lists what `cond` being `truth` establishes.
+func condLiterals(info *types.Info, cond ast.Expr, truth bool) []Literal {
+	cond = ast.Unparen(cond)
+	switch x := cond.(type) {
+	case *ast.UnaryExpr:
+		if x.Op == token.NOT {
+			return condLiterals(info, x.X, !truth)
+		}
+	case *ast.BinaryExpr:
+		switch x.Op {
+		case token.LAND:
+			if truth {
+				return append(condLiterals(info, x.X, true), condLiterals(info, x.Y, true)...)
+			}
+			return nil
+		case token.LOR:
+			if !truth {
+				return append(condLiterals(info, x.X, false), condLiterals(info, x.Y, false)...)
+			}
+			return nil
+		case token.EQL, token.NEQ:
+			eq := (x.Op == token.EQL) == truth
+			if v := valOf(info, x.Y); v != "" {
+				return []Literal{{ast.Unparen(x.X), v, eq}}
+			}
+			if v := valOf(info, x.X); v != "" {
+				return []Literal{{ast.Unparen(x.Y), v, eq}}
+			}
+			return nil
+		}
+		return nil
+	}
+	if tv, ok := info.Types[cond]; ok {
+		if b, isBasic := tv.Type.Underlying().(*types.Basic); isBasic && b.Info()&types.IsBoolean != 0 {
+			return []Literal{{cond, "true", truth}}
+		}
+	}
+	return nil
+}
+
+// EventLiterals lists what a branch event establishes in the direction the path took
+// (switch case: tag == value when taken, tag != value when passed over).
+func EventLiterals(info *types.Info, e Event) []Literal {
+	if e.Kind != EvBranch || e.Cond == nil {
+		return nil
+	}
+	if e.Tag != nil {
+		if v := valOf(info, e.Cond); v != "" {
+			return []Literal{{ast.Unparen(e.Tag), v, e.Taken}}
+		}
+		return nil
+	}
+	return condLiterals(info, e.Cond, e.Taken)
+}
+
+// Establishes: the event establishes X == val (eq) / X != val (!eq) for an X accepted by match.
+func Establishes(info *types.Info, e Event, match func(ast.Expr) bool, val string, eq bool) bool {
+	for _, l := range EventLiterals(info, e) {
+		if l.Val == val && l.Eq == eq && match(l.X) {
+			return true
+		}
+	}
+	return false
+}
+
+// fieldMatcher: expressions ending in the given field selections on a value of type owner ("" = any).
+func fieldMatcher(info *types.Info, owner string, names ...string) func(ast.Expr) bool {
+	return func(e ast.Expr) bool {
+		_, ok := FieldPath(info, e, owner, names...)
+		return ok
+	}
+}
+
+// mentionsField: the expression selects a struct field with this name somewhere.
+func mentionsField(info *types.Info, e ast.Node, name string) bool {
+	found := false
+	ast.Inspect(e, func(n ast.Node) bool {
+		if sel, ok := n.(*ast.SelectorExpr); ok && sel.Sel.Name == name {
+			if s := info.Selections[sel]; s != nil && s.Kind() == types.FieldVal {
+				found = true
+			}
+		}
+		return !found
+	})
+	return found
 }
